@@ -65,7 +65,7 @@ RULES = {
     "is skipped on writing comes back as something else and the next serialization differs from this one (the value_info entry of the "
     "value disappears): serialize(deserialize(P)) is not a fixed point",
 }
-FLOORS = {"R1": 45, "R2": 6, "R3": 5, "R4": 5, "R5": 2, "R6": 3, "R7": 2, "R8": 3, "R9": 2, "R10": 4, "R11": 1, "R12": 1, "R13": 30}
+FLOORS = {"R1": 45, "R2": 6, "R3": 5, "R4": 5, "R5": 2, "R6": 3, "R7": 1, "R8": 3, "R9": 2, "R10": 4, "R11": 1, "R12": 1, "R13": 30}
 EXPLANATION = (
     "Effect summaries (file-system primitives through the resolved call graph) for the deserialization entry set and "
     "the cheap tensor accessors; a sub-term analysis of every recursive call edge of the deserializer; dominator "
